@@ -161,7 +161,7 @@ func TestC17Random(t *testing.T) {
 	rec := obs.NewRecorder("C17", "random", "rapid: histories of up to 200 valid Add/Remove/SetPCRPID/WriteTables/WriteData calls (WriteData- and configuration-change-heavy mixes), retransmit periods 1..50 and the default; on the writer's bytes: PAT+PMT before the first PES packet; a table emission no later than every <period> successful WriteData calls; PAT+PMT immediately before a unit with the random access indicator on the PCR PID; every PMT byte-identical to the reference encoding of the configuration of that moment (streams in insertion order, descriptors, PCR PID; version/current_next/section numbers taken from the packet), PAT = {program 1 -> PMT PID}; automatically assigned PIDs unique and not reserved; PMT version_number +1 mod 32 iff Add/Remove/SetPCRPID happened since the previous emission; non-trivial = >= 3 emissions with a version change and a periodic retransmission; distinct by history")
 	defer rec.Flush()
 	rapid.Check(t, func(t *rapid.T) {
-		prof := muxProfile{maxOps: 120, manyData: gen.Bool(t, "manydata"), invalid: gen.Chance(t, 30, "invalid")}
+		prof := muxProfile{maxOps: 120, manyData: gen.Bool(t, "manydata"), invalid: gen.Chance(t, 30, "invalid"), lowPIDs: true}
 		if gen.Chance(t, 25, "long") {
 			prof.maxOps, prof.minOps = 200, 60
 		}
